@@ -347,12 +347,12 @@ Definition ks (mode : N) : list nat :=
   (if has_nq mode then seq 0 9 else []) ++ (if has_q mode then seq 9 6 else []).
 
 (* what evasion mode keeps of each component *)
-Definition comp_keep (k : nat) (y : N) : bool :=
+Definition comp_keep (k : nat) : N -> bool :=
   match k with
-  | 4 | 5 => true
-  | 7 | 13 => king_keep p y
-  | 12 => false
-  | _ => N.testbit evt (To y)
+  | 4 | 5 => fun _ => true
+  | 7 | 13 => king_keep p
+  | 12 => fun _ => false
+  | _ => fun c => N.testbit evt (To c)
   end%nat.
 
 Lemma king_facts : k0 < 64 /\ at_ b k0 = mk_piece c KING /\ (forall s, s < 64 -> at_ b s = mk_piece c KING -> s = k0).
@@ -442,16 +442,17 @@ Proof.
     pose proof (ev_moves p Hlegal evt true) as Hmg. change (mode_of true) with 1 in Hmg. rewrite Hmg.
     cbn [bind seq map concat comp comp_keep]. unfold tmask.
     rewrite !Htrue, !app_nil_r, <- !app_assoc. reflexivity. }
-  assert (Hq : (do a <- gen_pawn_moves prom_nq v 2 true evt; do cs <- Some []; do k <- gen_king_moves v 2 true;
-                do m <- gen_moves v 2 true evt; Some (a ++ cs ++ k ++ m)) =
+  assert (Hq : (do a <- gen_pawn_moves prom_nq v 2 true evt; do k <- gen_king_moves v 2 true;
+                do m <- gen_moves v 2 true evt; Some (a ++ k ++ m)) =
                Some (concat (map (fun k => filter (comp_keep k) (comp k)) (seq 9 6)))).
   { unfold gen_pawn_moves. replace (has_nq 2) with false by reflexivity. replace (has_q 2) with true by reflexivity.
     cbn [bind]. rewrite (ev_quiet prom_nq p Hlegal evt). cbn [bind].
     pose proof (ev_king p Hlegal false k0 K1 K2 K3) as Hkg. change (mode_of false) with 2 in Hkg. rewrite Hkg. cbn [bind].
     pose proof (ev_moves p Hlegal evt false) as Hmg. change (mode_of false) with 2 in Hmg. rewrite Hmg.
     cbn [bind seq map concat comp comp_keep app]. unfold tmask.
-    rewrite !Hfalse, !app_nil_r, <- !app_assoc. reflexivity. }
-  destruct (has_nq mode), (has_q mode); rewrite ?Hnq, ?Hq; cbn [bind app]; rewrite ?map_app, ?concat_app, ?app_nil_r; reflexivity.
+    rewrite !Hfalse, !app_nil_r, <- !app_assoc. cbn [app]. reflexivity. }
+  destruct (has_nq mode), (has_q mode); cbn [bind app]; rewrite ?Hnq; cbn [bind app]; rewrite ?Hq; cbn [bind app];
+    rewrite ?map_app, ?concat_app, ?app_nil_r; reflexivity.
 Qed.
 
 (** the kept moves as a predicate on specification moves / on codes *)
@@ -492,10 +493,11 @@ Proof.
   intros Hk Hy. apply (comp_class k y Hk) in Hy. apply class_codes_in in Hy as (m & Hm & Hc & <-).
   pose proof (pseudo_valid p m (legal_wfp p Hlegal) Hm) as Hv.
   unfold ev_keep. rewrite (decode_mv_code m Hv), (cls_tests m Hv). cbv zeta. rewrite Hc.
-  unfold comp_keep, king_keep. rewrite (code_to m Hv). unfold king_safe.
+  unfold king_safe.
   assert (Hcases : (k = 0 \/ k = 1 \/ k = 2 \/ k = 3 \/ k = 4 \/ k = 5 \/ k = 6 \/ k = 7 \/ k = 8 \/ k = 9 \/
                     k = 10 \/ k = 11 \/ k = 12 \/ k = 13 \/ k = 14)%nat) by lia.
-  destruct Hcases as [->|[->|[->|[->|[->|[->|[->|[->|[->|[->|[->|[->|[->|[->| ->]]]]]]]]]]]]]]; reflexivity.
+  destruct Hcases as [->|[->|[->|[->|[->|[->|[->|[->|[->|[->|[->|[->|[->|[->| ->]]]]]]]]]]]]]];
+    cbn [comp_keep N.eqb Pos.eqb orb N.of_nat Pos.of_succ_nat Pos.succ]; unfold king_keep; rewrite ?(code_to m Hv); reflexivity.
 Qed.
 
 Theorem gen_pseudo_evasion_filter mode : exists l,
